@@ -36,6 +36,7 @@ var relayPool = []string{
 	strings.Repeat("A", 4096),
 	"\t leading and trailing \t",
 	`javascript:alert(1)`,
+	" ", "\t", "\r\n", "\u00a0", "\u3000 ", // white space only: still a relay state
 }
 
 var postBuilders = []string{"BuildAuthBodyPost", "BuildAuthBodyPostFromDocument", "BuildLogoutBodyPostFromDocument", "BuildLogoutResponseBodyPostFromDocument"}
@@ -234,7 +235,37 @@ func sameURL(a, b string) bool {
 	if e1 != nil || e2 != nil {
 		return a == b
 	}
-	return ua.Scheme == ub.Scheme && ua.Host == ub.Host && ua.Path == ub.Path && reflect.DeepEqual(ua.Query(), ub.Query()) && ua.Fragment == ub.Fragment
+	return ua.Scheme == ub.Scheme && ua.Host == ub.Host && ua.Path == ub.Path && sameQuery(ua.RawQuery, ub.RawQuery) && ua.Fragment == ub.Fragment
+}
+
+// sameQuery: the same parameters in the same order, each key and value equal after percent-decoding,
+// "k" and "k=" distinguished (the HTML serialisation may change how octets are escaped, nothing else).
+func sameQuery(a, b string) bool {
+	pa, pb := strings.Split(a, "&"), strings.Split(b, "&")
+	if len(pa) != len(pb) {
+		return false
+	}
+	for i := range pa {
+		ka, va, ha := strings.Cut(pa[i], "=")
+		kb, vb, hb := strings.Cut(pb[i], "=")
+		if ha != hb {
+			return false
+		}
+		dk1, e1 := url.QueryUnescape(ka)
+		dk2, e2 := url.QueryUnescape(kb)
+		dv1, e3 := url.QueryUnescape(va)
+		dv2, e4 := url.QueryUnescape(vb)
+		if e1 != nil || e2 != nil || e3 != nil || e4 != nil {
+			if pa[i] != pb[i] {
+				return false
+			}
+			continue
+		}
+		if dk1 != dk2 || dv1 != dv2 {
+			return false
+		}
+	}
+	return true
 }
 
 // c16Produce runs one builder. It returns the page, the exact document bytes the form
